@@ -23,6 +23,7 @@ import (
 	"github.com/ucan-wg/go-ucan/token/invocation"
 
 	"verif/harness/h"
+	_ "verif/harness/warm"
 	"verif/harness/keys"
 )
 
